@@ -411,5 +411,8 @@ func main() {
 			}
 		}
 	}
-	w.Close(o, "A: trees of 0..256 (thorough ..2048) keys built asc/desc/zigzag/random/churn, shape dumped, 24 non-mutating probes each whose comparator-call count must equal the cost model on that shape and obey the proved bound; B: trees of 2^8..2^12 (thorough ..2^16) keys, 120 mutating/non-mutating operations each judged against the bound for the size at that moment; C: zset/skipmap/skipset of the same sizes: lane structure from the dump and batch averages of 256 lookups/inserts/deletes against c*log2(n)+d; distinct = distinct case terms")
+	btOps(w, rng, o)
+	binOps(w, rng, o)
+	skipOps(w, rng, o)
+	w.Close(o, "D: B-trees (orders 3,4,5,6,8,16) of 0..256 keys: shape dumped, 48 mutating operations (Put new/present, Remove present/absent, Get) whose counts must EQUAL BTCost.put_cost/remove_cost on the model tree carried along by the C01 model and obey the proved bounds, final dump = model tree; D2: the same for red-black and AVL trees (dumps with colours / balance factors, cost = path_cost resp. rb_put_cost of the tree before the operation, model tree carried by RB.put/RB.remove/AVL.put/AVL.remove); E: zset/skipmap/skipset of 0..1024 keys: level-0 keys, heights, lanes dumped, 32-96 lookups/inserts/deletes whose counts must EQUAL the SkipCost search cost on the carried node sequence, highestLevel tracked, final dump = model sequence; A: trees of 0..256 (thorough ..2048) keys built asc/desc/zigzag/random/churn, shape dumped, 24 non-mutating probes each whose comparator-call count must equal the cost model on that shape and obey the proved bound; B: trees of 2^8..2^12 (thorough ..2^16) keys, 120 mutating/non-mutating operations each judged against the bound for the size at that moment; C: zset/skipmap/skipset of the same sizes: lane structure from the dump and batch averages of 256 lookups/inserts/deletes against c*log2(n)+d; distinct = distinct case terms")
 }
